@@ -171,6 +171,10 @@ func c13Shapes(thorough bool) (all []logShape, chainAlphabet []logShape) {
 
 // roundTrip checks one chained log against both read-back paths. prev may be nil.
 func c13RoundTrip(cl *ledger.ChainedLog, prev *ledger.ChainedLog) (kind, why string) {
+	// the stored hash is the digest the chain is defined by (computed here without Log.ChainLog / ComputeHash)
+	if !bytes.Equal(memstore.SpecHash(prev, cl), cl.Hash) {
+		return "hash-spec", "the stored hash is not SHA-256 over the previous entry's hash and the whole entry (type, data, date, idempotency key, id 0)"
+	}
 	defer func() {
 		if e := recover(); e != nil {
 			kind, why = "panic", fmt.Sprint(e)
